@@ -437,7 +437,12 @@ def c15(ctx):
     if not ctx.gv("tlc-schedules", "Trace_Lease", ["lease"], inputs=beh):
         return
     # racing requests whose compare-and-set proposals reach the metadata state machine as ONE apply batch
-    ctx.gv("batched-races", "Trace_Lease", ["lease", "--races", str(150 if q else 10000), "--seed", str(seed())], racy=True)
+    if not ctx.gv("batched-races", "Trace_Lease", ["lease", "--races", str(150 if q else 10000), "--seed", str(seed())], racy=True):
+        return
+    # the lease records live in the metadata state machine: a replica that catches up by a snapshot install must hold
+    # exactly the snapshot's records (a returned lease must not come back on one replica) - same stage as in C13 / C14
+    n, ops = (40, 25) if q else (1500, 40)
+    ctx.gv("metadata-snapshot-installs", "Trace_MetaKV", ["metakv", "--mode", "lfsm", "--seed", str(seed() + 23), "--n", str(n), "--ops", str(ops)])
 
 
 @check("C14")
